@@ -364,6 +364,18 @@ def run_case(case, ctx):
     for bad in (None, 0, -1, d):
         expect_reject(ctx, lambda: teneva.orthogonalize_right(Y, bad),
             f'orthogonalize_right(i={bad}), d={d}')
+    # history: an already orthogonalised tensor whose first core was rescaled
+    # by 1 + 2e-6 is NOT orthonormal any more and must be treated like any
+    # other input
+    if d <= 8 and case['family'] in ('generic', 'decay', 'overrank', 'd2'):
+        Y1 = teneva.orthogonalize(Y, d - 1)
+        Y2 = [G.copy() for G in Y1]
+        Y2[0] *= 1 + 2e-6
+        for k in range(d):
+            teneva.orthogonalize(Y2, k)
+        if d >= 2:
+            teneva.orthogonalize_left([G.copy() for G in Y2], 0)
+        ctx.event('nearly-orthonormal-inputs')
     # nested calls: the routines that orthogonalise internally
     if d <= 6 and case['family'] not in ('zero-core', 'huge', 'tiny'):
         _state['nested'] = True
